@@ -202,6 +202,7 @@ def make_ref(kind):
     if kind in ('vec', 'small'): return RefSeq(None)
     if kind == 'svec': return RefSeq(SVEC_CAP)
     if kind in ('arr', 'tuple', 'tuplev2'): return RefArr(ARR_N)
+    if ':' in kind and kind.split(':')[0] in ('tuple', 'tuplev2'): return RefArr(int(kind.split(':')[1]))   # heterogeneous tuple of that arity
     raise ValueError(kind)
 
 
@@ -284,36 +285,66 @@ def has_alias_push(ops):
     return any(n == 'pushAt' for n, a in ops)
 
 
-def small_ever_dynamic(ops):
-    """some small_vector object is in heap mode at some point: built with N >= DIM or more than DIM values, resized above
-    DIM, pushed at size == DIM, or copied / assigned from such an object"""
+def small_trace(ops):
+    """reference run of a small_vector history: yields (name, args, reference state before the op, heap-mode flags before
+    the op, applicable).  An object is in heap mode when built with N >= DIM or more than DIM values, resized above DIM,
+    pushed (push / pushAt) at size == DIM, or copied / assigned from such an object"""
     dyn = [False] * NSLOTS
     for n, a, st in sizes_along(ops, 'small'):
         s = a[0]
         o = st[s]
+        before = list(dyn)
+        ok = True
         if o is None:
             if n == 'ctorN': dyn[s] = a[1] >= SMALL_DIM
             elif n == 'ctorV': dyn[s] = len(a) - 1 > SMALL_DIM
             elif n == 'ctor': dyn[s] = False
             elif n == 'copy' and st[a[1]] is not None: dyn[s] = dyn[a[1]]
+            else: ok = False
         else:
-            if n == 'resize' and a[1] > SMALL_DIM: dyn[s] = True
-            elif n == 'push' and len(o) == SMALL_DIM: dyn[s] = True
-            elif n == 'assign' and st[a[1]] is not None: dyn[s] = dyn[a[1]]
+            if n == 'resize':
+                if a[1] > SMALL_DIM: dyn[s] = True
+            elif n == 'push':
+                if len(o) == SMALL_DIM: dyn[s] = True
+            elif n == 'pushAt':
+                if a[1] >= len(o): ok = False
+                elif len(o) == SMALL_DIM: dyn[s] = True
+            elif n == 'assign':
+                if st[a[1]] is not None: dyn[s] = dyn[a[1]]
+                else: ok = False
             elif n == 'destroy': dyn[s] = False
-        if any(dyn):
-            return True
+            elif n in ('write', 'read'): ok = a[1] < len(o)
+            else: ok = False
+        yield n, a, st, before, list(dyn), ok
+
+
+def small_ever_dynamic(ops):
+    """some small_vector object is in heap mode at some point"""
+    return any(any(after) for n, a, st, before, after, ok in small_trace(ops))
+
+
+def small_alias_push_at_dim(ops):
+    """`x.push_back(x[i])` is applied to a small_vector holding exactly DIM elements"""
+    return any(ok and n == 'pushAt' and len(st[a[0]]) == SMALL_DIM for n, a, st, before, after, ok in small_trace(ops))
+
+
+def small_mixed_mode(ops):
+    """a copy construction / assignment between two small_vector objects one of which is in heap mode"""
+    for n, a, st, before, after, ok in small_trace(ops):
+        if ok and n == 'copy' and before[a[1]]: return True
+        if ok and n == 'assign' and a[0] != a[1] and before[a[0]] != before[a[1]]: return True
     return False
 
 
 def in_domain(kind, ops):
     """(contents, ledger): the history lies in the hypothesis domain of the Lean refinement theorem of its kind resp. of
     the ledger theorems.  After the fix: commits vector and static_vector have no excluded operation; small_vector
-    refines std::vector on every history of its alphabet, its ledger is only clean while every object stays static."""
-    if kind in ('vec', 'svec', 'arr', 'tuple', 'tuplev2'):
+    refines std::vector on every history in which push_back(x[i]) is never applied at size() == DIM, its ledger is only
+    clean (and, by smallVector_static_no_heap, untouched) while every object stays static."""
+    if kind in ('vec', 'svec', 'arr', 'tuple', 'tuplev2') or kind.startswith('tuple'):
         return (True, True)
     if kind == 'small':
-        return (not has_alias_push(ops), not small_ever_dynamic(ops))
+        return (not small_alias_push_at_dim(ops), not small_ever_dynamic(ops))
     return (False, False)
 
 
@@ -347,24 +378,7 @@ def _pred(kind, f, aspect):
 
 def small_copy_from_dynamic(ops):
     """a small_vector is copy-constructed from an object that is in heap mode"""
-    dyn = [False] * NSLOTS
-    for n, a, st in sizes_along(ops, 'small'):
-        s = a[0]
-        o = st[s]
-        if o is None:
-            if n == 'ctorN': dyn[s] = a[1] >= SMALL_DIM
-            elif n == 'ctorV': dyn[s] = len(a) - 1 > SMALL_DIM
-            elif n == 'ctor': dyn[s] = False
-            elif n == 'copy' and st[a[1]] is not None:
-                if dyn[a[1]]:
-                    return True
-                dyn[s] = False
-        else:
-            if n == 'resize' and a[1] > SMALL_DIM: dyn[s] = True
-            elif n == 'push' and len(o) == SMALL_DIM: dyn[s] = True
-            elif n == 'assign' and st[a[1]] is not None: dyn[s] = dyn[a[1]]
-            elif n == 'destroy': dyn[s] = False
-    return False
+    return any(ok and n == 'copy' and before[a[1]] for n, a, st, before, after, ok in small_trace(ops))
 
 
 def _poison_pred(case):
@@ -375,6 +389,7 @@ def _poison_pred(case):
 KNOWN_PREDICATES = {
     'small_ever_dynamic': _pred('small', small_ever_dynamic, 'ledger'),
     'small_copy_dynamic_raw_storage': _poison_pred,
+    'small_alias_push_at_dim': _pred('small', small_alias_push_at_dim, 'contents'),
     'maybe_nt_assign_unconstructed': _lpred('maybe', 'assign'),
     'maybe_nt_never_destroyed': _lpred('maybe', 'held'),
     'either_nt_construct_over_live': _lpred('either', 'over'),
@@ -386,13 +401,13 @@ KNOWN_PREDICATES = {
 # generators
 # ----------------------------------------------------------------------------------------------
 
-def live_ops(s, size, other_live, t, resizes, two):
+def live_ops(s, size, other_live, t, resizes, two, pushat_last=False):
     """operations applicable to live slot s (reduced alphabet, values are t-derived so every write is recognisable)"""
     v = 10 * (t + 1) + s
     ops = [('push', [s, v]), ('destroy', [s]), ('assign', [s, s])]
     ops += [('resize', [s, n]) for n in resizes]
     if size > 0:
-        ops += [('write', [s, 0, v]), ('pushAt', [s, 0])]
+        ops += [('write', [s, 0, v]), ('pushAt', [s, size - 1 if pushat_last else 0])]
         if size > 1:
             ops += [('write', [s, size - 1, v])]
     if two and other_live:
@@ -408,9 +423,13 @@ def dead_ops(s, other_live, t, sized, variadic):
     return ops
 
 
-def enum_histories(L, two, kind='vec', resizes=(0, 1, 3, 6), sized=(0, 2, 5), variadic=(3,), nopush=False, nopushat=False):
+def enum_histories(L, two, kind='vec', resizes=(0, 1, 3, 6), sized=(0, 2, 5), variadic=(3,), nopush=False, nopushat=False,
+                   prefix=(), pushat_last=False):
     """all histories of length exactly L over the reduced alphabet in which every operation is applicable
-    (prefixes are observed too: the state is printed after every step)"""
+    (prefixes are observed too: the state is printed after every step); `prefix`: fixed operations run first
+    (the L enumerated operations follow)"""
+    L = L + len(prefix)
+
     def rec(ref, t, acc):
         if t == L:
             yield list(acc)
@@ -424,7 +443,7 @@ def enum_histories(L, two, kind='vec', resizes=(0, 1, 3, 6), sized=(0, 2, 5), va
                     continue
                 cands += dead_ops(s, other and two, t, sized, variadic)
             else:
-                cands += live_ops(s, len(o), other, t, resizes, two)
+                cands += live_ops(s, len(o), other, t, resizes, two, pushat_last)
         if nopush:
             cands = [c for c in cands if c[0] not in ('push', 'pushAt', 'resize')]
         if nopushat:
@@ -436,7 +455,10 @@ def enum_histories(L, two, kind='vec', resizes=(0, 1, 3, 6), sized=(0, 2, 5), va
             acc.append((n, a))
             yield from rec(r2, t + 1, acc)
             acc.pop()
-    yield from rec(make_ref(kind), 0, [])
+    ref0 = make_ref(kind)
+    for n, a in prefix:
+        ref0.apply(n, a)
+    yield from rec(ref0, len(prefix), list(prefix))
 
 
 def rand_history(rng, L, cap=None, maxn=9, vmax=5):
@@ -471,8 +493,9 @@ def rand_history(rng, L, cap=None, maxn=9, vmax=5):
     return ops
 
 
-def rand_domain_history(rng, L, cap=None, vmax=5, maxlen=None):
-    """random history inside the theorem domain: no sized construction, no growing resize, no aliasing push"""
+def rand_domain_history(rng, L, cap=None, vmax=5, maxlen=None, pushat=False):
+    """random history inside the theorem domain: no sized construction, no growing resize; aliasing pushes only with
+    `pushat` (and then only below `maxlen`)"""
     ref = RefSeq(cap)
     ops = []
     for t in range(L):
@@ -495,6 +518,7 @@ def rand_domain_history(rng, L, cap=None, vmax=5, maxlen=None):
             elif c < 0.72 and n: op = ('read', [s, rng.randrange(n)])
             elif c < 0.87: op = ('assign', [s, rng.choice([s, 1 - s])])
             elif c < 0.91: op = ('destroy', [s])
+            elif pushat and n and (maxlen is None or n < maxlen): op = ('pushAt', [s, rng.randrange(n)])
             elif maxlen is None or n < maxlen: op = ('push', [s, v])
             else: op = ('resize', [s, rng.randrange(0, n + 1)])
         ref.apply(*op)
@@ -503,6 +527,34 @@ def rand_domain_history(rng, L, cap=None, vmax=5, maxlen=None):
 
 
 HARNESS = 'h_c19'
+TUPLE_ARITIES = (1, 2, 3, 4, 5, 6, 7, 8, 9, 10, 11, 12)
+
+
+def rand_tuple_history(rng, L, N):
+    """random history over {ctor, ctorV, copy, assign(other|self), write(i), read(i), destroy} on two N-tuples; every
+    component index is used; a few inapplicable operations (must be skipped)"""
+    ref = RefArr(N)
+    ops = []
+    for t in range(L):
+        s = rng.randrange(2)
+        o = ref.objs[s]
+        other = ref.objs[1 - s] is not None
+        c = rng.random()
+        v = rng.randrange(1, 99)
+        if o is None:
+            if c < 0.3: op = ('ctor', [s])
+            elif c < 0.7 or not other: op = ('ctorV', [s] + [rng.randrange(1, 99) for _ in range(N)])
+            else: op = ('copy', [s, 1 - s])
+        else:
+            if c < 0.40: op = ('write', [s, rng.randrange(N), v])
+            elif c < 0.60: op = ('read', [s, rng.randrange(N)])
+            elif c < 0.85: op = ('assign', [s, rng.choice([s, 1 - s])])
+            elif c < 0.93: op = ('destroy', [s])
+            elif c < 0.96: op = ('write', [s, N + rng.randrange(2), v])    # no such component: skipped
+            else: op = ('ctor', [s])                                        # already alive: skipped
+        ref.apply(*op)
+        ops.append(op)
+    return ops
 
 
 def fix_arr(ops):
@@ -510,23 +562,33 @@ def fix_arr(ops):
     return [(n, [a[0], min(a[1], ARR_N - 1)] + a[2:]) if n in ('write', 'read') else (n, a) for n, a in ops]
 
 
-def _cases(verb, kind, elem, ops, tags, dc, dl, orc):
+def _cases(verb, kind, elem, ops, tags, dc, dl, orc, extra='', harness=None):
     """inside both theorem domains: one request, IMPL vs ORACLE vs MODEL on everything.  Otherwise the client-visible
     contents and the end-of-history ledger are judged separately (a known class explains one aspect only) and a third
     request compares IMPL with the mirroring MODEL on everything including the internal state."""
-    req = '%s kind=%s elem=%s ops=%s' % (verb, kind, elem, fmt_ops(ops))
+    req = '%s kind=%s elem=%s %sops=%s' % (verb, kind, elem, extra, fmt_ops(ops))
     nt = len(ops) >= 3
     base = list(tags) + ['kind=' + kind, 'elem=' + elem, 'len=%d' % len(ops) if len(ops) <= 7 else 'len>7']
     if dc and dl:
-        yield Case(req, HARNESS, dom=True, oracle=orc, model=True, nontrivial=nt, tags=base + ['dom', 'aspect=contents', 'aspect=ledger'], cmp=cmp_answers)
+        yield Case(req, harness or HARNESS, dom=True, oracle=orc, model=True, nontrivial=nt, tags=base + ['dom', 'aspect=contents', 'aspect=ledger'], cmp=cmp_answers)
         return
     yield Case(req, HARNESS, dom=dc, oracle=orc, model=dc, nontrivial=nt, tags=base + ['aspect=contents', 'dom' if dc else 'off-dom'], cmp=cmp_contents)
     yield Case(req, HARNESS, dom=dl, oracle=orc, model=dl, nontrivial=nt, tags=base + ['aspect=ledger', 'dom' if dl else 'off-dom'], cmp=cmp_ledger)
     yield Case(req, HARNESS, dom=False, oracle=None, model=True, nontrivial=nt, tags=['correspondence-only', 'kind=' + kind], cmp=cmp_answers)
 
 
-def cases_for(kind, elem, ops, tags):
+TUPLE_HARNESS = 'h_c19_tuple'
+
+
+def cases_for(kind, elem, ops, tags, fill=None):
     dc, dl = in_domain(kind, ops)
+    if kind.startswith('tuple'):
+        # 'tuple' / 'tuplev2': homogeneous tuple<E,E,E>;  'tuple:N' / 'tuplev2:N': heterogeneous, arity N, elem=mixed
+        k, _, n = kind.partition(':')
+        extra = ('arity=%s ' % n if n else '') + ('fill=%s ' % fill if fill else '')
+        yield from _cases('hist', k, 'mixed' if n else elem, ops, list(tags) + (['arity=' + n] if n else []), dc, dl,
+                          oracle_seq(ops, kind), extra=extra, harness=TUPLE_HARNESS)
+        return
     yield from _cases('hist', kind, elem, ops, tags, dc, dl, oracle_seq(ops, kind))
 
 
@@ -538,10 +600,17 @@ def ecases_for(kind, elem, ops, tags):
 def san_case(kind, elem, ops, tags, extra=''):
     """the same history under ASan/UBSan against the reference only"""
     e = kind in ('maybe', 'either')
-    req = '%s kind=%s elem=%s %sops=%s' % ('ehist' if e else 'hist', kind, elem, extra, fmt_ops(ops))
+    harness = 'h_c19_san'
+    k = kind
+    if kind.startswith('tuple'):
+        k, _, n = kind.partition(':')
+        harness = 'h_c19_tuple_san'
+        if n:
+            elem, extra = 'mixed', 'arity=%s ' % n + extra
+    req = '%s kind=%s elem=%s %sops=%s' % ('ehist' if e else 'hist', k, elem, extra, fmt_ops(ops))
     dc, dl = in_domain_e(kind, elem, ops) if e else in_domain(kind, ops)
     orc = oracle_either(ops, kind) if e else oracle_seq(ops, kind)
-    return Case(req, 'h_c19_san', dom=dc and dl, oracle=orc, model=False, nontrivial=len(ops) >= 3,
+    return Case(req, harness, dom=dc and dl, oracle=orc, model=False, nontrivial=len(ops) >= 3,
                 tags=list(tags) + ['san', 'kind=' + kind, 'aspect=all'], cmp=cmp_answers)
 
 
@@ -613,6 +682,8 @@ def rand_ehistory(rng, L, kind):
 
 def harness_specs(tier):
     return [dict(name='h_c19', src='h_c19.cpp', flavour='fast', extra=['-fno-lifetime-dse']),
+            dict(name='h_c19_tuple', src='h_c19_tuple.cpp', flavour='fast', extra=['-fno-lifetime-dse']),
+            dict(name='h_c19_tuple_san', src='h_c19_tuple.cpp', flavour='san', extra=['-DC19_SAN', '-fno-lifetime-dse']),
             # ASan + UBSan build: blocks go straight back to the sanitizer allocator (use-after-free, double free and
             # heap overflow abort the request -> `crash:asan:...`), accesses beyond fixed buffers are not guarded
             dict(name='h_c19_san', src='h_c19.cpp', flavour='san', extra=['-DC19_SAN', '-fno-lifetime-dse'])]
@@ -671,19 +742,26 @@ def gen(tier, rng):
     # nmtools::small_vector<T,4> over utl::either<utl::static_vector, utl::vector> ------------------
     for L in ([5] if quick else [5, 6]):
         n1 = 0
-        for ops in enum_histories(L, two=False, kind='small', resizes=(0, 1, 3, 4, 6), sized=(0, 2, 4, 6), variadic=(3, 5), nopushat=True):
+        for ops in enum_histories(L, two=False, kind='small', resizes=(0, 1, 3, 4, 6), sized=(0, 2, 4, 6), variadic=(3, 5), pushat_last=True):
             n1 += 1
             if L == 5 or n1 % 3 == 0:
                 yield from cases_for('small', 'int', ops, ['exhaustive-1obj' if L == 5 else 'sampled-1obj'])
     n2 = 0
-    for ops in enum_histories(4 if quick else 5, two=True, kind='small', resizes=(0, 2, 5), sized=(3, 5), variadic=(5,), nopushat=True):
+    for ops in enum_histories(4 if quick else 5, two=True, kind='small', resizes=(0, 2, 5), sized=(3, 5), variadic=(5,), pushat_last=True):
         n2 += 1
         if quick or n2 % 4 == 0:
             yield from cases_for('small', 'double' if n2 % 2 else 'int', ops, ['exhaustive-2obj' if quick else 'sampled-2obj'])
     for k in range(300 if quick else 4000):
         L = rng.choice([6, 7, 12, 30, 80, 200])
-        yield from cases_for('small', rng.choice(['int', 'double']), [o for o in rand_history(rng, L, maxn=7, vmax=6) if o[0] != 'pushAt'], ['random'])
-        yield from cases_for('small', rng.choice(['int', 'double']), rand_domain_history(rng, L, vmax=4, maxlen=SMALL_DIM), ['random-domain'])
+        yield from cases_for('small', rng.choice(['int', 'double']), rand_history(rng, L, maxn=7, vmax=6), ['random'])
+        yield from cases_for('small', rng.choice(['int', 'double']), rand_domain_history(rng, L, vmax=4, maxlen=SMALL_DIM, pushat=True), ['random-domain'])
+    # copy / assignment between a static-mode and a heap-mode small_vector (both directions), then every continuation
+    for pre in MIXED_PREFIXES:
+        n2 = 0
+        for ops in enum_histories(3 if quick else 4, two=True, kind='small', resizes=(1, 5), sized=(2, 5), variadic=(), prefix=parse_ops(pre), pushat_last=True):
+            n2 += 1
+            if small_mixed_mode(ops):
+                yield from cases_for('small', 'double' if n2 % 2 else 'int', ops, ['mixed-mode-2obj'])
     # utl::array<T,3> -----------------------------------------------------------------------------
     n2 = 0
     for ops in enum_histories(4 if quick else 5, two=True, kind='arr', resizes=(), sized=(), variadic=(2, 3), nopush=True):
@@ -694,7 +772,31 @@ def gen(tier, rng):
     for ops in enum_histories(4 if quick else 5, two=True, kind='tuple', resizes=(), sized=(), variadic=(3,), nopush=True):
         n2 += 1
         yield from cases_for('tuple' if n2 % 2 else 'tuplev2', ('int', 'tracked', 'double')[n2 % 3], ops, ['exhaustive-2obj'])
+    # heterogeneous tuples <int, double, counting type, int, ...> of every arity the implementation has (1 .. 12)
+    for tk in ('tuple', 'tuplev2'):
+        for N in TUPLE_ARITIES:
+            kind = '%s:%d' % (tk, N)
+            for ops in enum_histories(3 if quick else 4, two=True, kind=kind, resizes=(), sized=(), variadic=(N,), nopush=True):
+                yield from cases_for(kind, 'mixed', ops, ['exhaustive-2obj'])
+            # a fully written tuple and a default-constructed one, then every continuation
+            pre = [('ctorV', [0] + [100 + j for j in range(N)]), ('ctor', [1])]
+            for ops in enum_histories(2 if quick else 3, two=True, kind=kind, resizes=(), sized=(), variadic=(N,), nopush=True, prefix=pre):
+                yield from cases_for(kind, 'mixed', ops, ['prefixed-2obj'])
+            # default construction into storage filled with 0xA5: every component must be value-initialised
+            yield from cases_for(kind, 'mixed', [('ctor', [0])] + [('read', [0, j]) for j in range(N)] + [('copy', [1, 0]), ('read', [1, N - 1])],
+                                 ['poisoned-storage'], fill='poison')
+            for k in range(25 if quick else 300):
+                L = rng.choice([6, 12, 30, 80, 200])
+                yield from cases_for(kind, 'mixed', rand_tuple_history(rng, L, N), ['random'])
 
+
+# slot 0 static / slot 1 heap, and the reverse; sizes below, at and above DIM
+MIXED_PREFIXES = [
+    'ctorV:0:1:2:3;ctorN:1:5',
+    'ctorN:0:6;ctorV:1:7:8',
+    'ctorV:0:1:2:3:4;ctorV:1:5:6:7:8:9',
+    'ctorN:0:4;ctor:1',
+]
 
 POISON_WITNESSES = [
     'ctorN:0:6;copy:1:0',
@@ -720,8 +822,12 @@ def gen_san(tier, rng):
         yield san_case(kind, elem, parse_ops(ops), ['witness'])
     for ops in enum_histories(4 if quick else 5, two=False):
         yield san_case('vec', 'int', ops, ['exhaustive-1obj'])
-    for ops in enum_histories(4 if quick else 5, two=False, kind='small', resizes=(0, 3, 4, 6), sized=(2, 6), variadic=(3, 5), nopushat=True):
+    for ops in enum_histories(4 if quick else 5, two=False, kind='small', resizes=(0, 3, 4, 6), sized=(2, 6), variadic=(3, 5), pushat_last=True):
         yield san_case('small', 'int', ops, ['exhaustive-1obj'])
+    for pre in MIXED_PREFIXES:
+        for ops in enum_histories(2 if quick else 3, two=True, kind='small', resizes=(1, 5), sized=(2, 5), variadic=(), prefix=parse_ops(pre), pushat_last=True):
+            if small_mixed_mode(ops):
+                yield san_case('small', 'int', ops, ['mixed-mode-2obj'])
     for ops in enum_histories(4, two=False, kind='svec', resizes=(0, 1, 4, 6), sized=(2, 7), variadic=(2, 4)):
         yield san_case('svec', 'int', ops, ['exhaustive-1obj'])
     for k in range(150 if quick else 2000):
@@ -730,11 +836,17 @@ def gen_san(tier, rng):
         yield san_case('vec', e, rand_history(rng, L), ['random'])
         yield san_case('vec', e, rand_domain_history(rng, L), ['random-domain'])
         yield san_case('svec', e, rand_history(rng, L, cap=SVEC_CAP, maxn=7, vmax=4), ['random'])
-        yield san_case('small', e, [o for o in rand_history(rng, L, maxn=7, vmax=6) if o[0] != 'pushAt'], ['random'])
+        yield san_case('small', e, rand_history(rng, L, maxn=7, vmax=6), ['random'])
         yield san_case('small', e, rand_domain_history(rng, L, vmax=4, maxlen=SMALL_DIM), ['random-domain'])
         for kind in ('maybe', 'either'):
             yield san_case(kind, rng.choice(['int', 'double', 'tracked']), rand_ehistory(rng, L, kind), ['random'])
         yield san_case('arr', e, [o for o in rand_domain_history(rng, min(L, 30), vmax=3) if o[0] not in ('push', 'resize')], ['random'])
+    for tk in ('tuple', 'tuplev2'):
+        for N in TUPLE_ARITIES:
+            for k in range(6 if quick else 60):
+                yield san_case('%s:%d' % (tk, N), 'mixed', rand_tuple_history(rng, rng.choice([6, 30, 120]), N), ['random'])
+        for k in range(20 if quick else 200):
+            yield san_case(tk, 'tracked', rand_tuple_history(rng, rng.choice([6, 30, 120]), 3), ['random'])
 
 
 WITNESSES = [
@@ -745,6 +857,10 @@ WITNESSES = [
     ('svec', 'int', 'ctorN:0:7'),
     ('small', 'int', 'ctorN:0:5'),
     ('small', 'int', 'ctor:0;push:0:1;push:0:2;push:0:3;push:0:4;push:0:5;destroy:0'),
+    ('small', 'int', 'ctorV:0:10:11:12:13;pushAt:0:2'),
+    ('small', 'int', 'ctorN:0:4;write:0:0:7;pushAt:0:0'),
+    ('small', 'int', 'ctorN:0:6;resize:0:4;write:0:1:9;pushAt:0:1'),      # spare capacity: no defect
+    ('small', 'int', 'ctorV:0:10:11:12;pushAt:0:1;push:0:5;pushAt:0:4'),   # never at size == DIM: no defect
     ('svec', 'int', 'ctor:0;push:0:1;push:0:2;push:0:3;resize:0:1;resize:0:3'),
 ]
 
@@ -753,9 +869,9 @@ RULE = ('operation histories on object slots 0/1, state printed after every step
         'pushAt = push_back(x[i]), resize, write, read, destroy}; every history of length 5 over a reduced alphabet in which each '
         'operation is applicable on one object (length 6: vector all, others every 3rd; thorough), every such history of length 4 on '
         'two objects (quick; length 5 every 3rd/4th in thorough), random histories of length 6..200 including inapplicable operations '
-        '(which must be skipped) and random histories restricted to the theorem domains; element types int and double. '
+        '(which must be skipped) and random histories restricted to the theorem domains; small_vector additionally: every continuation of length 3 (quick) / 4 of four static/heap two-object prefixes that performs a copy or assignment between a static-mode and a heap-mode object; element types int and double. '
         'array<T,3>, tuple<T,T,T>, tuplev2<T,T,T>: {ctor, ctorV, copy, assign, write, read, destroy}, all histories of length 4 (quick) / 5 '
-        'on two objects, int / double / counting non-trivial type for tuples. maybe<T>, either<T,R>: {mk, mkL, mkR, copy, assign, setL, setR, '
+        'on two objects, int / double / counting non-trivial type for tuples; heterogeneous tuples tuple<int,double,counting,int,...> and tuplev2<...> of EVERY arity 1..12 (the implementation limit of utl::tuple): all histories of length 3 (quick) / 4 on two objects, all continuations of length 2 / 3 of a fully written and a default-constructed tuple, random histories up to 200 using every component index, default construction into 0xA5-filled storage, a sample under ASan+UBSan. maybe<T>, either<T,R>: {mk, mkL, mkR, copy, assign, setL, setR, '
         'writeL, read, destroy}, all histories of length 4 (quick) / 5 on two objects, random up to 200, T in {int, double, counting '
         'non-trivial type}. A subset is replayed under ASan+UBSan. Inside the theorem domains one request is compared IMPL = ORACLE = MODEL; '
         'outside, contents and end-of-history ledger are judged separately against the ORACLE and IMPL = MODEL is checked on everything '
@@ -763,7 +879,7 @@ RULE = ('operation histories on object slots 0/1, state printed after every step
 EXHAUSTIVE = {'quick': False, 'thorough': False}
 ANCHORS = {'NmVerif.Containers.Vec.* (vecImpl)': 'utl::vector ctor/copy/operator=/resize/push_back/dtor (utl/vector.hpp:145-244)',
            'NmVerif.Containers.SVec.* (svecImpl)': 'utl::static_vector ctor/copy/operator=/resize/push_back (utl/static_vector.hpp:54-98)',
-           'NmVerif.Containers.arrImpl': 'utl::array (utl/array.hpp:23-112), utl::tuple (utl/tuple.hpp), utl::tuplev2 (utl/tuplev2.hpp) through utl::get<I>',
+           'NmVerif.Containers.arrImpl': 'utl::array (utl/array.hpp:23-112), utl::tuple (utl/tuple.hpp:29-462, tuple1 .. tuple12, get<I>), utl::tuplev2 (utl/tuplev2.hpp:38-178) through utl::get<I>; harness/h_c19_tuple.cpp',
            'NmVerif.Containers.Small.* (smallImpl)': 'nmtools::small_vector<T,DIM,utl::either,utl::static_vector,utl::vector> (utility/small_vector.hpp:39-140) over utl::either copy/assign/dtor (utl/either.hpp:229-277)',
            'NmVerif.Containers.Eith.* (estep)': 'utl::either (utl/either.hpp:134-346), utl::maybe trivial and non-trivial specialisations (utl/maybe.hpp:25-200)',
            'NmVerif.Containers.Ledger': 'nmtools_malloc / nmtools_free (utl/vector.hpp:48-61) redirected to the counting allocator of harness/h_c19.cpp'}
@@ -772,11 +888,11 @@ ASSUMPTIONS = ['glibc malloc/free behave; the ledger is the counting allocator b
                'indeterminate memory is made observable: fresh and freed blocks are filled with 0xA5 and printed as `u`; freed blocks are quarantined until the end of the history in the non-sanitizer build',
                'object storage handed to constructors is zero-filled (-fno-lifetime-dse keeps the fill); the model of raw union storage (small_vector, either copy) reflects that; `fill=poison` requests show the effect of non-zero storage',
                'element type parametric model (alpha = Int in the driver): int, double (multiples of 0.5) and the counting type carry integer payloads',
-               'small_vector is checked with its STL-free parts (utl::either / utl::static_vector / utl::vector) passed explicitly as template arguments, DIM = 4, T = int/double (layouts where the union bytes of a value-initialised static_vector read as a null vector); push_back(x[i]) is not part of the alphabet for small_vector',
-               'utl::tuple / tuplev2 are homogeneous 3-tuples accessed through utl::get<I>; they share the array model']
-PARTIAL = ['small_vector: no ledger theorem (e.g. "histories that stay in static mode never touch the heap") — only the refinement theorem, the leak counterexample and the correspondence run cover its allocator behaviour; push_back(x[i]) is outside its alphabet',
+               'small_vector is checked with its STL-free parts (utl::either / utl::static_vector / utl::vector) passed explicitly as template arguments, DIM = 4, T = int/double (layouts where the union bytes of a value-initialised static_vector read as a null vector)',
+               'utl::tuple / tuplev2: homogeneous 3-tuples and heterogeneous tuples <int, double, counting type, ...> of arity 1..12 accessed through utl::get<I>; they share the array model (payload-parametric: the component types differ only on the C++ side); converting construction tuple<Us...> -> tuple<Ts...> is not part of the alphabet']
+PARTIAL = ['small_vector ledger: static mode never touches the heap (smallVector_static_no_heap), conservation of blocks on every history (smallVector_ledger_account: allocs = frees + dropped + one per live heap-mode object; smallVector_final_balance) and the exact cost of the static-to-heap switch (smallVector_switch_cost) are proved; NOT proved for small_vector: a set-level statement that no block is freed twice (the counting statement excludes frees of never-allocated blocks and double ownership only in total) — the correspondence run (counting allocator: bad frees, ASan flavour) covers it; push_back(x[i]) at size() == DIM is excluded from the refinement (known finding small_vector.alias-push-at-dim, smallVector_alias_push_counterexample)',
            'either/maybe lifetime theorem either_nontrivial_lifetime_ok covers only histories that never store a left value (every other history of a non-trivial type misbehaves: either_never_destroys)']
 MANIFEST = dict(
-    text='Proof: 23 Lean theorems over all operation histories (List Op, any number of object slots, induction done once in a generic simulation / invariant lemma): utl::vector refines std::vector on EVERY history (sized construction, growing resize, push_back(x[i]) included) and its allocation ledger shows no leak, no double free, no out-of-bounds access, self-assignment is a no-op; static_vector refines the capacity-bounded list with refusal on every history; array/tuple refine std::array; small_vector refines std::vector across the static/dynamic switch; maybe/either refine Option/Sum for trivial and non-trivial T; copies are independent; 5 counterexample theorems for the remaining defects (lifetime handling of maybe/either for non-trivial T, small_vector heap mode). Tied to the real headers on every run by replaying ~3.7e5 (quick) / ~2.1e6 (thorough) histories against the real containers with a counting allocator and a counting element type, three-way IMPL / MODEL / Python-list ORACLE, plus an ASan+UBSan flavour.',
-    note='Lean kernel + propext/Classical.choice/Quot.sound; model hand-written and following the repaired code (fix: commits C19-vector-value-init, -zero-sized-free, -alias-push, C19-static-vector-oversize-ctor, -grow-init); fidelity rests on the correspondence run (which also compares capacity, stale cells and malloc/free counters after every step); 7 known findings (maybe/either lifetime, small_vector heap mode) with witnesses; partial statements are listed in PARTIAL',
+    text='Proof: 31 Lean theorems over all operation histories (List Op, any number of object slots, induction done once in a generic simulation / invariant lemma): utl::vector refines std::vector on EVERY history (sized construction, growing resize, push_back(x[i]) included) and its allocation ledger shows no leak, no double free, no out-of-bounds access, self-assignment is a no-op; static_vector refines the capacity-bounded list with refusal on every history; array refines std::array and tuple / tuplev2 of every arity refine the fixed-length list with independent components (tuple_refines, tuple_set_component); small_vector refines std::vector across the static/dynamic switch (push_back(x[i]) included except at size() == DIM), never touches the heap while every object stays static, conserves blocks on every history (allocs = frees + dropped + live heap-mode objects) and the static-to-heap switch costs exactly 5 (4) allocations, 3 (2) frees and one dropped block; maybe/either refine Option/Sum for trivial and non-trivial T; copies are independent; 6 counterexample theorems for the remaining defects (lifetime handling of maybe/either for non-trivial T, small_vector heap mode, small_vector push_back(x[i]) at size() == DIM). Tied to the real headers on every run by replaying ~3.7e5 (quick) / ~2.1e6 (thorough) histories against the real containers with a counting allocator and a counting element type, three-way IMPL / MODEL / Python-list ORACLE, plus an ASan+UBSan flavour.',
+    note='Lean kernel + propext/Classical.choice/Quot.sound; model hand-written and following the repaired code (fix: commits C19-vector-value-init, -zero-sized-free, -alias-push, C19-static-vector-oversize-ctor, -grow-init); fidelity rests on the correspondence run (which also compares capacity, stale cells and malloc/free counters after every step); 8 known findings (maybe/either lifetime, small_vector heap mode, small_vector aliasing push) with witnesses; partial statements are listed in PARTIAL',
     technique='Lean 4 simulation and invariant proofs over List Op histories + differential history replay with allocator / lifetime ledgers')
